@@ -74,6 +74,8 @@ type ProcResult struct {
 	Leaked     int               `json:"leaked_runs"`
 	Unknown    int               `json:"porcupine_unknown"`
 	OutcomeMix map[string]int    `json:"outcome_mix"`
+	Sites      map[string]int    `json:"sites"`
+	SiteFaults map[string]int    `json:"site_faults"`
 }
 
 type ReportedV struct {
@@ -237,7 +239,7 @@ func TestSim(t *testing.T) {
 	}
 	known := loadKnown()
 	start := time.Now()
-	out := &ProcResult{Property: *fProperty, Tier: *fTier, Seed: *fSeed, Fired: map[string]int{}, Probes: map[string]int{}, Profiles: map[string]int{}, OutcomeMix: map[string]int{}}
+	out := &ProcResult{Property: *fProperty, Tier: *fTier, Seed: *fSeed, Fired: map[string]int{}, Probes: map[string]int{}, Profiles: map[string]int{}, OutcomeMix: map[string]int{}, Sites: map[string]int{}, SiteFaults: map[string]int{}}
 	traces := map[string]bool{}
 	nontriv := map[string]bool{}
 	knownSeen := map[string]bool{}
@@ -269,6 +271,12 @@ func TestSim(t *testing.T) {
 		}
 		for k, v := range res.Stats.Probes {
 			out.Probes[k] += v
+		}
+		for k, v := range res.Stats.Sites {
+			out.Sites[k] += v
+		}
+		for k, v := range res.Stats.SiteFaults {
+			out.SiteFaults[k] += v
 		}
 		for _, or := range res.Results {
 			if or.Phase == "main" {
